@@ -141,10 +141,10 @@ class LPMixin(StmtMixin):
             code.setdefault(f[0], []).append(f)
         for f in self.families(st, True):
             spec.setdefault(f[0], []).append(f)
-        if not spec:
+        so, co = st.ghost.get("__spec_objective__"), st.ghost.get("__objective__")
+        if not spec and so is None:
             return []
         obls = []
-        so, co = st.ghost.get("__spec_objective__"), st.ghost.get("__objective__")
         if so is not None:
             if co is None:
                 obls.append(Obligation("objective/missing", "family", st.hyps(), z3.BoolVal(False), where, {"text": "no objective set"}))
